@@ -301,10 +301,13 @@ inline constexpr StrainRate<NumericType>::StrainRate(
     const VelocityGradient<NumericType>& velocity_gradient)
   : StrainRate<NumericType>(
         {velocity_gradient.Value().xx(),
-         0.5 * (velocity_gradient.Value().xy() + velocity_gradient.Value().yx()),
-         0.5 * (velocity_gradient.Value().xz() + velocity_gradient.Value().zx()),
+         static_cast<NumericType>(0.5)
+             * (velocity_gradient.Value().xy() + velocity_gradient.Value().yx()),
+         static_cast<NumericType>(0.5)
+             * (velocity_gradient.Value().xz() + velocity_gradient.Value().zx()),
          velocity_gradient.Value().yy(),
-         0.5 * (velocity_gradient.Value().yz() + velocity_gradient.Value().zy()),
+         static_cast<NumericType>(0.5)
+             * (velocity_gradient.Value().yz() + velocity_gradient.Value().zy()),
          velocity_gradient.Value().zz()}) {}
 
 template <typename NumericType>
